@@ -1,4 +1,325 @@
+// nifsim — typed synthesis of populated blocks of every registered type (DESIGN 4.2).
+// The library's own Get() is run against a generating stream; hooks H1-H3 say what is being read.
 #include "sim.hpp"
+#include <cfloat>
+
 namespace sim {
-bool synthInitial(const json&, NifFile&, Ctx&) { return false; }
+
+static const std::pair<const char*, const char*> kHierarchy[] = {
+#include "hierarchy.inc"
+};
+
+static std::string classOfBlockType(const std::string& t) {
+	std::string c;
+	for (size_t i = 0; i < t.size(); i++)
+		if (t[i] != ':') c.push_back(t[i]);
+	return c;
 }
+static const std::map<std::string, std::string>& baseMap() {
+	static std::map<std::string, std::string> m = [] {
+		std::map<std::string, std::string> r;
+		for (auto& p : kHierarchy) r[p.first] = p.second;
+		return r;
+	}();
+	return m;
+}
+bool classDerivesFrom(const std::string& cls, const std::string& base) {
+	if (base == "NiObject" || base.empty()) return true;
+	std::string c = cls;
+	for (int guard = 0; guard < 40; guard++) {
+		if (c == base) return true;
+		auto it = baseMap().find(c);
+		if (it == baseMap().end()) return false;
+		c = it->second;
+	}
+	return false;
+}
+
+struct GenBuf : std::streambuf {
+	Rng rng;
+	uint32_t nStrings = 4;
+	bool oldStrings = false; // < 20.1.0.3: string refs are inline
+	bool havePending = false;
+	int pKind = 0;
+	size_t pSize = 0;
+	std::string pType;
+	bool pendingRef = false, pendingStr = false;
+	uint64_t lastInt = ~0ull;
+	size_t produced = 0;
+	char one = 0;
+	int lineLeft = 0;
+	explicit GenBuf(uint64_t seed) : rng(seed) {}
+
+	float genFloat() {
+		switch (rng.below(12)) {
+			case 0: return 0.0f;
+			case 1: return 1.0f;
+			case 2: return -1.0f;
+			case 3: return 0.5f;
+			case 4: return FLT_MAX;
+			case 5: return float(rng.below(64)) / 8.0f;
+			default: return float(int(rng.below(2001)) - 1000) / 100.0f;
+		}
+	}
+	uint32_t smallCount() {
+		uint32_t r = rng.below(100);
+		if (r < 70) return rng.below(5);
+		if (r < 95) return 5 + rng.below(16);
+		return 21 + rng.below(40);
+	}
+	void gen(char* p, size_t n) {
+		produced += n;
+		if (n == 0) { havePending = false; return; }
+		if (havePending && pSize == n) {
+			havePending = false;
+			if (pendingRef && n == 4) {
+				pendingRef = false;
+				uint32_t v = 0xFFFFFFFFu; // wired afterwards
+				memcpy(p, &v, 4);
+				lastInt = ~0ull;
+				return;
+			}
+			if (pendingStr && n == 4) {
+				pendingStr = false;
+				uint32_t v;
+				if (oldStrings) v = rng.below(9); // inline length, characters follow as a raw read
+				else v = rng.chance(0.25) ? 0xFFFFFFFFu : rng.below(nStrings);
+				memcpy(p, &v, 4);
+				lastInt = v;
+				return;
+			}
+			switch (pKind) {
+				case verif::K_BOOL: p[0] = char(rng.below(2)); lastInt = ~0ull; return;
+				case verif::K_INT:
+				case verif::K_ENUM: {
+					uint64_t v;
+					if (n == 8) {
+						uint64_t flags = rng.next() & 0x7FF;
+						v = (flags << 44) | (uint64_t(rng.below(7)) << 8) | rng.below(16);
+					}
+					else if (n == 1 && rng.chance(0.05)) v = rng.below(256);
+					else v = smallCount();
+					memcpy(p, &v, n);
+					lastInt = v;
+					return;
+				}
+				case verif::K_FLOAT: {
+					if (n == 4) { float f = genFloat(); memcpy(p, &f, 4); }
+					else { double d = genFloat(); memcpy(p, &d, std::min<size_t>(n, 8)); }
+					lastInt = ~0ull;
+					return;
+				}
+				default: {
+					lastInt = ~0ull;
+					if (pType.find("Triangle") != std::string::npos && n == 6) {
+						uint16_t t[3] = {uint16_t(rng.below(6)), uint16_t(rng.below(6)), uint16_t(rng.below(6))};
+						memcpy(p, t, 6);
+						return;
+					}
+					size_t i = 0;
+					for (; i + 4 <= n; i += 4) { float f = genFloat(); memcpy(p + i, &f, 4); }
+					for (; i < n; i++) p[i] = char(rng.below(4));
+					return;
+				}
+			}
+		}
+		havePending = false;
+		// raw reads
+		if (lastInt == n && n > 0 && n < 4096 && n != 1 && n != 2 && n != 4 && n != 8) {
+			// a length was just read and now exactly that many bytes follow: character data
+			for (size_t i = 0; i < n; i++) p[i] = char('a' + rng.below(6));
+			lastInt = ~0ull;
+			return;
+		}
+		lastInt = ~0ull;
+		if (n <= 4) {
+			memset(p, 0, n);
+			uint32_t r = rng.below(100);
+			p[0] = char(r < 85 ? rng.below(4) : 4 + rng.below(30));
+			uint32_t v = 0;
+			memcpy(&v, p, n);
+			lastInt = v;
+			return;
+		}
+		for (size_t i = 0; i < n; i++) p[i] = (i & 1) ? 0 : char(rng.below(6));
+	}
+	std::streamsize xsgetn(char* s, std::streamsize n) override {
+		gen(s, size_t(n));
+		return n;
+	}
+	int_type underflow() override {
+		// byte-wise reads (getline / getstring): a few letters, then a terminator
+		if (lineLeft == 0) lineLeft = 1 + int(rng.below(6));
+		lineLeft--;
+		one = lineLeft == 0 ? ((produced & 1) ? '\n' : '\0') : char('a' + rng.below(6));
+		if (lineLeft == 0) one = '\0';
+		produced++;
+		setg(&one, &one, &one + 1);
+		return traits_type::to_int_type(one);
+	}
+};
+
+struct GenHookCtx {
+	GenBuf* gb = nullptr;
+	std::vector<std::pair<NiRef*, std::string>> refs; // ref object -> target class
+	std::vector<NiStringRef*> strs;
+};
+static void gh_field(void* c, int mode, int kind, size_t size, const char* type) {
+	auto h = static_cast<GenHookCtx*>(c);
+	if (mode == 0 && h->gb) { h->gb->havePending = true; h->gb->pKind = kind; h->gb->pSize = size; h->gb->pType = type ? type : ""; }
+}
+static void gh_ref(void* c, int mode, NiRef* r, const char* pretty) {
+	auto h = static_cast<GenHookCtx*>(c);
+	if (mode == 0 && h->gb) { h->gb->pendingRef = true; h->refs.push_back({r, refTargetType(pretty)}); }
+}
+static void gh_str(void* c, int mode, NiStringRef* r) {
+	auto h = static_cast<GenHookCtx*>(c);
+	if (mode == 0 && h->gb) { h->gb->pendingStr = true; h->strs.push_back(r); }
+}
+
+static bool isBuilderOnly(const std::string& t) {
+	return t == "BSTriShape" || t == "BSSubIndexTriShape" || t == "BSDynamicTriShape" || t == "BSMeshLODTriShape" || t == "BSGeometry";
+}
+
+struct GenBlock {
+	std::unique_ptr<NiObject> obj;
+	std::string type;
+	std::vector<std::pair<NiRef*, std::string>> refs;
+	std::vector<NiStringRef*> strs;
+};
+
+static GenBlock genOne(NiHeader& hdr, const std::string& type, uint64_t seed, bool populate) {
+	GenBlock g;
+	g.type = type;
+	auto fac = NiFactoryRegister::Get().GetFactoryByName(type);
+	if (!fac) return g;
+	if (!populate) { g.obj = fac->Create(); return g; }
+	GenBuf gb(seed);
+	gb.oldStrings = hdr.GetVersion().File() < V20_1_0_3;
+	gb.nStrings = hdr.GetStringCount();
+	std::istream is(&gb);
+	NiIStream nis(&is, &hdr);
+	GenHookCtx hc;
+	hc.gb = &gb;
+	verif::Hooks hooks;
+	hooks.ctx = &hc;
+	hooks.field = gh_field;
+	hooks.blockref = gh_ref;
+	hooks.strref = gh_str;
+	auto prev = verif::hooks;
+	verif::hooks = &hooks;
+	g.obj = fac->Load(nis);
+	verif::hooks = prev;
+	g.refs = std::move(hc.refs);
+	g.strs = std::move(hc.strs);
+	return g;
+}
+
+// spec: {"version":V, "type":T, "k":instances, "seed":S, "helpers":max helper blocks, "attach":bool}
+bool synthInitial(const json& spec, NifFile& nif, Ctx& ctx, std::string* fileBytes) {
+	setStage("synth:generate");
+	NiVersion ver = versionByName(jstr(spec, "version", "SSE"));
+	std::string type = jstr(spec, "type", "NiNode");
+	uint64_t seed = ju64(spec, "seed", 1);
+	int k = std::max(1, jint(spec, "k", 2));
+	int maxHelpers = jint(spec, "helpers", 6);
+	Rng r(seed * 1000003 + 17);
+	NifFile tmp;
+	tmp.Create(ver);
+	auto& hdr = tmp.GetHeader();
+	hdr.AddOrFindStringId("", true);
+	hdr.AddOrFindStringId("s1");
+	hdr.AddOrFindStringId("s2");
+	hdr.AddOrFindStringId("textures\\s3.dds");
+	hdr.AddOrFindStringId("Bone01");
+
+	std::vector<GenBlock> blocks;
+	{ GenBlock root; root.type = "NiNode"; blocks.push_back(std::move(root)); } // placeholder for block 0 (owned by tmp)
+	for (int i = 0; i < k; i++) {
+		GenBlock g = genOne(hdr, type, seed * 16 + uint64_t(i) + 1, true);
+		if (!g.obj) return false;
+		blocks.push_back(std::move(g));
+	}
+	// helpers: one concrete registered type per wanted target class
+	std::vector<std::string> wanted;
+	for (size_t b = 1; b < blocks.size(); b++)
+		for (auto& rf : blocks[b].refs)
+			if (std::find(wanted.begin(), wanted.end(), rf.second) == wanted.end()) wanted.push_back(rf.second);
+	auto& all = allBlockTypes();
+	int helpers = 0;
+	for (auto& w : wanted) {
+		if (helpers >= maxHelpers) break;
+		std::vector<std::string> cands;
+		for (auto& t : all)
+			if (classDerivesFrom(classOfBlockType(t), w)) cands.push_back(t);
+		if (cands.empty()) continue;
+		std::string pick = cands[r.below(uint32_t(cands.size()))];
+		for (auto& t : cands)
+			if (classOfBlockType(t) == w && r.chance(0.6)) pick = t;
+		GenBlock g = genOne(hdr, pick, seed * 977 + uint64_t(helpers) + 101, !isBuilderOnly(pick) && r.chance(0.7));
+		if (!g.obj) continue;
+		blocks.push_back(std::move(g));
+		helpers++;
+	}
+	setStage("synth:wire");
+	// wiring: child refs point forward (no cycles), pointers point backward, types fit
+	std::vector<std::string> cls(blocks.size());
+	for (size_t b = 0; b < blocks.size(); b++) cls[b] = classOfBlockType(blocks[b].type);
+	for (size_t b = 1; b < blocks.size(); b++) {
+		std::set<NiRef*> childSet, ptrSet;
+		blocks[b].obj->GetChildRefs(childSet);
+		blocks[b].obj->GetPtrs(ptrSet);
+		for (auto& rf : blocks[b].refs) {
+			bool isPtr = ptrSet.count(rf.first) > 0;
+			std::vector<uint32_t> cands;
+			if (isPtr) { for (size_t j = 0; j < b; j++) if (classDerivesFrom(cls[j], rf.second)) cands.push_back(uint32_t(j)); }
+			else { for (size_t j = b + 1; j < blocks.size(); j++) if (classDerivesFrom(cls[j], rf.second)) cands.push_back(uint32_t(j)); }
+			uint32_t v = 0xFFFFFFFFu;
+			if (!cands.empty() && r.chance(0.8)) v = cands[r.below(uint32_t(cands.size()))];
+			else if (r.chance(0.05) && blocks.size() > 2) {
+				// a wrong-typed but acyclic target (legal on disk; typed lookups must return null)
+				v = isPtr ? r.below(uint32_t(b)) : uint32_t(b + 1 + r.below(uint32_t(blocks.size() - b - 1 ? blocks.size() - b - 1 : 1)));
+				if (v >= blocks.size()) v = 0xFFFFFFFFu;
+			}
+			rf.first->index = v;
+		}
+		for (auto sr : blocks[b].strs)
+			if (hdr.GetVersion().File() >= V20_1_0_3) sr->get() = hdr.GetStringById(sr->GetIndex());
+	}
+	// move into the model
+	std::vector<NiObject*> raw(blocks.size(), nullptr);
+	raw[0] = tmp.GetRootNode();
+	for (size_t b = 1; b < blocks.size(); b++) {
+		raw[b] = blocks[b].obj.get();
+		hdr.AddBlock(std::move(blocks[b].obj));
+	}
+	// attach top-level blocks to the root so that the default save keeps them
+	if (jbool(spec, "attach", true)) {
+		std::set<uint32_t> referenced;
+		for (size_t b = 1; b < raw.size(); b++) {
+			std::set<NiRef*> cs;
+			raw[b]->GetChildRefs(cs);
+			for (auto c : cs) if (!c->IsEmpty()) referenced.insert(c->index);
+		}
+		auto root = tmp.GetRootNode();
+		for (size_t b = 1; b < raw.size(); b++) {
+			if (referenced.count(uint32_t(b))) continue;
+			if (dynamic_cast<NiAVObject*>(raw[b])) root->childRefs.AddBlockRef(uint32_t(b));
+			else if (dynamic_cast<NiExtraData*>(raw[b])) root->extraDataRefs.AddBlockRef(uint32_t(b));
+			else if (dynamic_cast<NiProperty*>(raw[b]) && ver.File() < V20_2_0_7) root->propertyRefs.AddBlockRef(uint32_t(b));
+		}
+	}
+	setStage("synth:save");
+	SaveOut so = saveNif(tmp, SaveSpec());
+	if (so.rc != 0) return false;
+	if (fileBytes) *fileBytes = so.bytes;
+	setStage("synth:load");
+	LoadOut lo = loadNif(nif, so.bytes);
+	if (lo.rc != 0) { ctx.probe("synth_rejected_by_load"); return false; }
+	ctx.probe("synth_accepted");
+	ctx.info["synth_blocks"] = (long) nif.GetHeader().GetNumBlocks();
+	setStage("synth:done");
+	return true;
+}
+
+} // namespace sim
